@@ -186,6 +186,7 @@ pub fn configs() -> Vec<(&'static str, WebAnnoConfig)> {
         ("extra-context", WebAnnoConfig { extra_context: vec!["http://ex.org/ctx.jsonld".into()], ..base.clone() }),
         ("extra-context+namespaces", WebAnnoConfig { extra_context: vec!["http://ex.org/ctx.jsonld".into(), "http://ex.org/ctx2.jsonld".into()], ..base.clone() }.with_namespace("dc".into(), "http://purl.org/dc/terms/".into())),
         ("extra-target", WebAnnoConfig { extra_target_template: Some("{resource}/{begin}/{end}".into()), ..base.clone() }),
+        ("extra-target+prefixes", WebAnnoConfig { extra_target_template: Some("{resource}/{begin}/{end}".into()), default_annotation_iri: "http://ex.org/anno/".into(), default_set_iri: "http://ex.org/set/".into(), default_resource_iri: "http://ex.org/res/".into(), ..base.clone() }),
         ("generated+generator", WebAnnoConfig { auto_generated: true, auto_generator: true, ..Default::default() }),
         ("no-generator", WebAnnoConfig { auto_generated: false, auto_generator: false, ..Default::default() }),
         ("generate-ids", WebAnnoConfig { auto_generated: false, generate_annotation_iri: true, default_annotation_iri: "http://ex.org/a b/".into(), ..Default::default() }),
